@@ -81,7 +81,7 @@ Definition push_tag (cfg : bconfig) (b : bstate) (tag : nat) : bstate :=
            end in
   let name := name_of b tag in
   mkb (with_heap s h) (b_pay b) (tag :: b_stack b)
-      (if str_eqb name (c_root cfg) then b_counter b else cadd name 1%Z (b_counter b))
+      (if Nat.eqb tag 0 then b_counter b else cadd name 1%Z (b_counter b))   (* `if tag is not self`: the root object is element 0 *)
       (if memS name (c_pw cfg) then tag :: b_pws b else b_pws b)
       (match assocS name (c_containers cfg) with Some _ => tag :: b_scs b | None => b_scs b end)
       (b_data b) (b_mre b) (Some tag).
@@ -228,13 +228,14 @@ Fixpoint pop_loop (n : nat) (b : bstate) (name : str) (prefix : option str) : bs
           end
       end
   end.
+(* any(... for t in reversed(self.tagStack[1:])): the root object at the bottom is not looked at *)
 Definition is_open (b : bstate) (name : str) (prefix : option str) : bool :=
-  existsb (fun t => str_eqb name (name_of b t) && opt_str_eqb prefix (p_prefix (b_pay b t))) (b_stack b).
+  existsb (fun t => str_eqb name (name_of b t) && opt_str_eqb prefix (p_prefix (b_pay b t)))
+          (removelast (b_stack b)).
 Definition counter_positive (b : bstate) (name : str) : bool :=
   match cget name (b_counter b) with Some z => negb (Z.eqb z 0) | None => false end.
 Definition pop_to_tag (cfg : bconfig) (b : bstate) (name : str) (prefix : option str) : bstate :=
-  if str_eqb name (c_root cfg) then b
-  else if counter_positive b name && negb (is_open b name prefix) then b
+  if counter_positive b name && negb (is_open b name prefix) then b
   else pop_loop (pred (length (b_stack b))) b name prefix.
 
 Definition handle_endtag (cfg : bconfig) (b : bstate) (name : str) (prefix : option str) : bstate :=
@@ -258,7 +259,7 @@ Fixpoint pop_all (n : nat) (cfg : bconfig) (b : bstate) : bstate :=
   | O => b
   | S n' =>
       match b_cur b with
-      | Some c => if str_eqb (name_of b c) (c_root cfg) then b else pop_all n' cfg (pop_tag b)
+      | Some c => if Nat.eqb c 0 then b else pop_all n' cfg (pop_tag b)   (* while currentTag is not self *)
       | None => b
       end
   end.
